@@ -442,6 +442,12 @@ def run_case(case, arrays, classes, mon, tier, full_knobs=False,
                 if cid in skip:
                     mon.c('configs_skipped_after_crash')
                     continue
+                if len(skip) >= 6:
+                    # a work item that has already produced six reports or
+                    # crashes (each one is classified: listed or VIOLATION)
+                    # stops there; what it leaves out is counted
+                    mon.c('configs_not_run_after_six_reports')
+                    continue
                 if cls == SSFC and len(skip) >= 3:
                     # listed for any input: under a sanitizer every
                     # configuration of this class ends in a report and the
